@@ -1,5 +1,5 @@
 (* Proofs about Model/Plots.v (C20).  Axiom-free. *)
-From Coq Require Import ZArith List Bool String Lia.
+From Coq Require Import ZArith List Bool String Lia Permutation.
 From Chi Require Import Model.Plots.
 Import ListNotations.
 Open Scope Z_scope.
@@ -210,3 +210,92 @@ Proof.
   induction l as [|x l IH]; cbn [filter]; [reflexivity|].
   destruct (p x); cbn [andb filter]; [destruct (q x); cbn; now rewrite IH | assumption].
 Qed.
+
+(* ======== row-order independence of the band, exact unique times, exact polygon values ======== *)
+(* ---------------- the band does not depend on the order of the sample rows ---------------- *)
+Lemma cnt_perm p l l' : Permutation l l' -> cnt p l = cnt p l'.
+Proof. induction 1 as [|x l l' _ IH|x y l|l l' l'' _ IH1 _ IH2]; cbn [cnt]; lia. Qed.
+Lemma filter_perm {A} (p : A -> bool) l l' : Permutation l l' -> Permutation (filter p l) (filter p l').
+Proof.
+  induction 1 as [|x l l' _ IH|x y l|l l' l'' _ IH1 _ IH2]; cbn [filter].
+  - constructor.
+  - destruct (p x); [now constructor|assumption].
+  - destruct (p x), (p y); try apply Permutation_refl. apply perm_swap.
+  - eapply Permutation_trans; eassumption.
+Qed.
+Lemma maxl_perm l l' : Permutation l l' -> maxl l = maxl l'.
+Proof.
+  intros HP. destruct (maxl l) as [m|] eqn:E, (maxl l') as [m'|] eqn:E'; try reflexivity.
+  - destruct (maxl_spec _ _ E) as [Hi Hm], (maxl_spec _ _ E') as [Hi' Hm'].
+    pose proof (Hm' m (Permutation_in _ HP Hi)). pose proof (Hm m' (Permutation_in _ (Permutation_sym HP) Hi')).
+    f_equal. lia.
+  - apply maxl_none in E'. subst l'. apply Permutation_sym, Permutation_nil in HP. subst l. discriminate.
+  - apply maxl_none in E. subst l. apply Permutation_nil in HP. subst l'. discriminate.
+Qed.
+Lemma minl_perm l l' : Permutation l l' -> minl l = minl l'.
+Proof.
+  intros HP. destruct (minl l) as [m|] eqn:E, (minl l') as [m'|] eqn:E'; try reflexivity.
+  - destruct (minl_spec _ _ E) as [Hi Hm], (minl_spec _ _ E') as [Hi' Hm'].
+    pose proof (Hm' m (Permutation_in _ HP Hi)). pose proof (Hm m' (Permutation_in _ (Permutation_sym HP) Hi')).
+    f_equal. lia.
+  - apply minl_none in E'. subst l'. apply Permutation_sym, Permutation_nil in HP. subst l. discriminate.
+  - apply minl_none in E. subst l. apply Permutation_nil in HP. subst l'. discriminate.
+Qed.
+Lemma filter_ext_all {A} (p q : A -> bool) l : (forall x, p x = q x) -> filter p l = filter q l.
+Proof. intros H. apply filter_ext. exact H. Qed.
+Theorem limits_perm l l' a b : Permutation l l' ->
+  lower_limit l a b = lower_limit l' a b /\ upper_limit l a b = upper_limit l' a b.
+Proof.
+  intros HP. unfold lower_limit, upper_limit.
+  assert (Hb : forall x, below l a b x = below l' a b x).
+  { intros x. unfold below, rank2, less, eqc, n_of. now rewrite !(cnt_perm _ _ _ HP). }
+  assert (Ha : forall x, above l a b x = above l' a b x).
+  { intros x. unfold above, rank2, less, eqc, n_of. now rewrite !(cnt_perm _ _ _ HP). }
+  split.
+  - rewrite (filter_ext_all _ _ l Hb). apply maxl_perm, filter_perm, HP.
+  - rewrite (filter_ext_all _ _ l Ha). apply minl_perm, filter_perm, HP.
+Qed.
+
+(* ---------------- the unique times: each time of the frame once, nothing else ---------------- *)
+Lemma uniq_In l x : In x (uniq l) <-> In x l.
+Proof.
+  induction l as [|y l IH]; cbn [uniq In]; [tauto|]. rewrite filter_In, IH.
+  destruct (Z.eqb_spec x y) as [->|Hne]; cbn; [tauto|]. split; [tauto|].
+  intros [->|H]; [congruence|]. right. split; [assumption|reflexivity].
+Qed.
+Lemma uniq_NoDup l : NoDup (uniq l).
+Proof.
+  induction l as [|y l IH]; cbn [uniq]; constructor.
+  - rewrite filter_In. intros [_ H]. now rewrite Z.eqb_refl in H.
+  - now apply NoDup_filter.
+Qed.
+Theorem times_exact rows :
+  NoDup (times_of rows) /\ forall t, In t (times_of rows) <-> exists v, In (t, v) rows.
+Proof.
+  split; [apply uniq_NoDup|]. intros t. unfold times_of. rewrite uniq_In, in_map_iff. split.
+  - intros [[t' v] [E H]]. cbn in E. subst t'. now exists v.
+  - intros [v H]. now exists (t, v).
+Qed.
+(* the samples used at one time are exactly the values of the rows with that time, in frame order *)
+Theorem samples_exact rows t v : In v (samples_at rows t) <-> In (t, v) rows.
+Proof.
+  unfold samples_at. rewrite in_map_iff. split.
+  - intros [[t' v'] [E H]]. apply filter_In in H. destruct H as [H Ht]. cbn in *. subst v'.
+    apply Z.eqb_eq in Ht. now subst t'.
+  - intros H. exists (t, v). split; [reflexivity|]. apply filter_In. split; [assumption|]. cbn. apply Z.eqb_refl.
+Qed.
+
+(* ---------------- the drawn polygon carries exactly the limits of each time ---------------- *)
+Theorem polygon_values rows a b :
+  snd (polygon rows a b) =
+    map (fun t => upper_limit (samples_at rows t) a b) (times_of rows) ++
+    rev (map (fun t => lower_limit (samples_at rows t) a b) (times_of rows)).
+Proof. unfold polygon, band. cbn [snd]. now rewrite !map_map. Qed.
+
+(* row order of the samples table does not change the band of any time *)
+Lemma samples_perm rows rows' t : Permutation rows rows' -> Permutation (samples_at rows t) (samples_at rows' t).
+Proof. intros H. unfold samples_at. apply Permutation_map, filter_perm, H. Qed.
+Theorem band_row_order rows rows' a b t : Permutation rows rows' ->
+  lower_limit (samples_at rows t) a b = lower_limit (samples_at rows' t) a b /\
+  upper_limit (samples_at rows t) a b = upper_limit (samples_at rows' t) a b.
+Proof. intros H. apply limits_perm, samples_perm, H. Qed.
